@@ -423,8 +423,10 @@ func execHist(prop string, p *sim.Plan, keep bool) *sim.Result {
 					}
 				} else {
 					res.Count("probe_rollback_too_far_refused")
-					if prop == "C12" && head-target <= 5 {
-						res.Violate(prop, "rollback-refused-in-window", i, "", "Rollback(%d) at head %d (distance %d, journals retained for the last 10 blocks) was refused: %v", target, head, head-target, err)
+					// the retained window (anchor of C12: "last 10 blocks") starts at the highest pruning point any commit
+					// reached; rollbacks never lower it, so after repeated rollbacks it can be close to the head
+					if prop == "C12" && m.minJnl > 0 && target >= m.minJnl {
+						res.Violate(prop, "rollback-refused-in-window", i, "", "Rollback(%d) at head %d was refused although journals are retained from height %d on (last 10 blocks of the highest head reached): %v", target, head, m.minJnl, err)
 					}
 					if !errors.Is(err, ledger.ErrorRollbackTooMuch) && prop == "C12" {
 						res.Violate(prop, "rollback-error", i, "too-much", "Rollback(%d) at head %d returned %v, want ErrorRollbackTooMuch", target, head, err)
